@@ -1875,10 +1875,19 @@ func (query *Query) exec() (result any, err error) {
 			{
 				copy := CopyQuery(query)
 				copy.from = current
+				copy.postProcessors = make([]func() error, 0)
 				rs, err := copy.exec()
 				if err != nil {
 					return nil, err
 				}
+				// ASYNC calls made while projecting the inner array are awaited and
+				// resolved together with those of the outer query
+				query.postProcessors = append(query.postProcessors, copy.postProcessors...)
+				query.wg.Add(1)
+				go func() {
+					copy.wg.Wait()
+					query.wg.Done()
+				}()
 				slice = append(slice, rs)
 			}
 		case Map:
